@@ -391,5 +391,5 @@ def run(ctx):
     out.append(T.crate_path_rule(ctx.syn, "C16"))
     out.append(T.passthrough_fields_rule(ctx.syn, "C16", rule="C16.R16"))
     out.append(X.underscore_walker_rule(ctx.mir("default")["ts_rs_macros"], "C16", rule="C16.R14"))
-    out.append(T.generics_rule(ctx.syn, "C16", rule="C16.R12"))
+    out.append(T.generics_rule(ctx.syn, "C16", rule="C16.R12", crate=ctx.mir("default")["ts_rs_macros"]))
     return out
